@@ -47,7 +47,7 @@ KANI_UNITS["C08"] = dict(
 KANI_UNITS["C11"] = dict(
     prop="C11", crate="varpulis-runtime",
     appends=[("crates/varpulis-runtime/src/engine/evaluator.rs", "__vpv_c11", "contracts/kani/c11.rs")],
-    grade="K-complete", level="proof", timeout=4800, harness_timeout=600,
+    grade="K-complete", level="other", timeout=4800, harness_timeout=600,
     cell_grades={"c11_bin_add_ss": "K-bounded(2-byte string literals)"},
     functions=["varpulis-runtime/src/engine/evaluator.rs: eval_expr_with_functions (Binary arm: all 24 BinOp variants; Unary arm: all 3; literal arms)",
                "varpulis-runtime/src/engine/evaluator.rs: eval_builtin_function (abs sqrt floor ceil round pow log log10 exp sin cos min max is_null is_int type_of)"],
@@ -74,7 +74,7 @@ KANI_UNITS["C10"] = dict(
     prop="C10", crate="varpulis-runtime",
     appends=[("crates/varpulis-runtime/src/engine/evaluator.rs", "__vpv_c10", "contracts/kani/c10.rs")],
     extra_appends=[("crates/varpulis-parser/src/optimize.rs", C10_SHIM)],
-    grade="K-complete", level="proof", timeout=5400, harness_timeout=600,
+    grade="K-complete", level="other", timeout=5400, harness_timeout=600,
     cell_grades={"_str$": "K-bounded(2-byte string literal)",
                  "c10_lit_(div|mod)_int_int$": "K-bounded(divisor in {0, 1, -1, 2, 3, -7, 10, i64::MAX, i64::MIN}; dividend full-domain)",
                  "c10_lit_div_float_float$": "K-bounded(divisor in {0.0, -0.0, 1.0, -1.0, 2.0, 0.5, inf, NaN}; dividend full-domain)"},
